@@ -104,7 +104,7 @@ func equalp(x, y slip.Object) bool {
 			return equal(tx.Value, ty.Value)
 		}
 	default:
-		if x.Equal(y) {
+		if x != nil && x.Equal(y) {
 			return true
 		}
 	}
